@@ -238,7 +238,7 @@ fn check_case_single(case: &Value, stats: &mut Stats) -> CheckResult {
 pub fn property() -> Property {
     Property {
         id: "C07",
-        rule: "Valid positions (19 sources incl. material, mate and en-passant families), each additionally re-evaluated with the half-move \
+        rule: "Valid positions (20 sources incl. material, mate and en-passant families), each additionally re-evaluated with the half-move \
                clock set to 0/99/100/149/150/65535; plus an exhaustive enumeration of all multisets of <= 4 extra men (5 types x 2 colours \
                x light/dark square) with two king placements, both sides to move and 5 clock values; and every 3-man position \
                (all five types, ~4M positions), where stalemate and insufficient material coincide. Oracle: reference classifier \
